@@ -37,19 +37,21 @@ type Hooks struct {
 	RangeBody func(rs *ast.RangeStmt, st State) State
 	// LoopHead, if set, is called with the joined state at a loop head before each iteration (widening point).
 	LoopHead func(loop ast.Stmt, st State) State
-	Return   func(rs *ast.ReturnStmt, st State)
-	End      func(st State) // falling off the end of the body
+	// LoopEnter, if set, is called once each time control reaches a loop from outside.
+	LoopEnter func(loop ast.Stmt)
+	Return    func(rs *ast.ReturnStmt, st State)
+	End       func(st State) // falling off the end of the body
 	// Node is called for every statement before it is interpreted (for observers).
 	Node func(s ast.Stmt, st State)
 }
 
 type jumpTarget struct {
-	label     string
-	isLoop    bool
-	isSwitch  bool
-	breakSt   State
-	contSt    State
-	stmt      ast.Stmt
+	label    string
+	isLoop   bool
+	isSwitch bool
+	breakSt  State
+	contSt   State
+	stmt     ast.Stmt
 }
 
 type walker struct {
@@ -292,6 +294,9 @@ func (w *walker) stmt(s ast.Stmt, st State, label string) State {
 		tgt := &jumpTarget{label: label, isLoop: true, stmt: s}
 		head := st
 		var exit State
+		if w.h.LoopEnter != nil {
+			w.h.LoopEnter(s)
+		}
 		for iter := 0; iter < 40; iter++ {
 			if w.h.LoopHead != nil && head != nil {
 				head = w.h.LoopHead(s, head)
@@ -323,6 +328,9 @@ func (w *walker) stmt(s ast.Stmt, st State, label string) State {
 		tgt := &jumpTarget{label: label, isLoop: true, stmt: s}
 		head := st
 		var exit State
+		if w.h.LoopEnter != nil {
+			w.h.LoopEnter(s)
+		}
 		for iter := 0; iter < 40; iter++ {
 			if w.h.LoopHead != nil && head != nil {
 				head = w.h.LoopHead(s, head)
